@@ -48,7 +48,7 @@ class Interp:
         if not stmts: return [("fall", pc, env)]
         outs = []
         for kind, pc1, x in self.stmt(stmts[0], env, pc):
-            if kind == "ret": outs.append((kind, pc1, x))
+            if kind in ("ret", "cont", "brk"): outs.append((kind, pc1, x))
             else: outs.extend(self.block(stmts[1:], x, pc1))
         return outs
     def _copyenv(self, env):
@@ -65,16 +65,20 @@ class Interp:
                 return outs
             return self.block(list(st.body if c else st.orelse), env, pc)
         if isinstance(st, ast.For):
-            states = [(pc, env)]; rets = []
+            states = [(pc, env)]; rets = []; done = []
             for x in list(self.ev(st.iter, env)):
                 nxt = []
                 for pc1, e1 in states:
                     self.assign(st.target, x, e1)
                     for kind, pc2, y in self.block(list(st.body), e1, pc1):
                         if kind == "ret": rets.append((kind, pc2, y))
-                        else: nxt.append((pc2, y))
+                        elif kind == "brk": done.append((pc2, y))
+                        else: nxt.append((pc2, y))   # fall / continue
                 states = nxt
-            return rets + [("fall", p, e) for p, e in states]
+            return rets + [("fall", p, e) for p, e in states + done]
+        if isinstance(st, ast.Continue): return [("cont", pc, env)]
+        if isinstance(st, ast.Break): return [("brk", pc, env)]
+        if isinstance(st, ast.Pass): return [("fall", pc, env)]
         if isinstance(st, ast.Return):
             return [("ret", pc, self.ev(st.value, env))]
         if isinstance(st, ast.Assign):
@@ -136,7 +140,8 @@ class Interp:
                 r = self.ev(r, env)
                 if is_sym(l) and is_sym(r) and l.is_int() != r.is_int(): l2, r2 = to_real(l), to_real(r)
                 else: l2, r2 = l, r
-                f = {ast.Lt: operator.lt, ast.LtE: operator.le, ast.Gt: operator.gt, ast.GtE: operator.ge, ast.Eq: operator.eq, ast.NotEq: operator.ne}[type(op)]
+                f = {ast.Lt: operator.lt, ast.LtE: operator.le, ast.Gt: operator.gt, ast.GtE: operator.ge, ast.Eq: operator.eq, ast.NotEq: operator.ne,
+                     ast.In: lambda a, b: a in b, ast.NotIn: lambda a, b: a not in b, ast.Is: operator.is_, ast.IsNot: operator.is_not}[type(op)]
                 out.append(f(l2, r2)); l = r
             return out[0] if len(out) == 1 else (z3.And(*out) if any(is_sym(o) for o in out) else all(out))
         if isinstance(e, ast.Subscript):
@@ -146,7 +151,30 @@ class Interp:
                 hi = self.ev(e.slice.upper, env) if e.slice.upper else None
                 return v[lo:hi]
             return v[self.ev(e.slice, env)]
-        if isinstance(e, ast.ListComp):
+        if isinstance(e, ast.BoolOp):
+            vals = [self.ev(x, env) for x in e.values]   # no short-circuit: operands must be side-effect free
+            if any(is_sym(v) for v in vals):
+                return (z3.And if isinstance(e.op, ast.And) else z3.Or)(*[v if is_sym(v) else z3.BoolVal(bool(v)) for v in vals])
+            out = vals[0]
+            for v in vals[1:]:
+                out = (out and v) if isinstance(e.op, ast.And) else (out or v)
+            return out
+        if isinstance(e, ast.IfExp):
+            c = self.ev(e.test, env)
+            if is_sym(c):
+                a, b = self.ev(e.body, env), self.ev(e.orelse, env)
+                if is_sym(a) and is_sym(b) and a.is_int() != b.is_int(): a, b = to_real(a), to_real(b)
+                return z3.If(c, a, b)
+            return self.ev(e.body if c else e.orelse, env)
+        if isinstance(e, ast.Dict):
+            return {self.ev(k, env): self.ev(v, env) for k, v in zip(e.keys, e.values)}
+        if isinstance(e, ast.DictComp):
+            gen = e.generators[0]; outd = {}
+            for x in list(self.ev(gen.iter, env)):
+                e2 = dict(env); self.assign(gen.target, x, e2)
+                if all(self.ev(c, e2) for c in gen.ifs): outd[self.ev(e.key, e2)] = self.ev(e.value, e2)
+            return outd
+        if isinstance(e, (ast.ListComp, ast.GeneratorExp)):
             gen = e.generators[0]; out = []
             for x in list(self.ev(gen.iter, env)):
                 e2 = dict(env); self.assign(gen.target, x, e2)
@@ -162,6 +190,11 @@ class Interp:
                 xs = list(args[0]); acc = xs[0] if xs else 0
                 for x in xs[1:]: acc = acc + x
                 return acc
+            if n in ("any", "all"):
+                xs = list(args[0])
+                if any(is_sym(x) for x in xs):
+                    return (z3.Or if n == "any" else z3.And)(*[x if is_sym(x) else z3.BoolVal(bool(x)) for x in xs])
+                return any(xs) if n == "any" else all(xs)
             if n == "len":
                 v = args[0]
                 return v.sym_len if hasattr(v, "sym_len") else len(v)
@@ -186,8 +219,15 @@ class Interp:
                         acc = x if acc is None else acc + x; out.append(acc)
                     return out
                 return list({"list": list, "zip": zip, "range": range, "enumerate": enumerate}[n](*args))
-            raise Unsupported("call " + n)
+            import builtins
+            if hasattr(builtins, n) and n not in env["__globals__"] and not _has_sym(args):
+                return getattr(builtins, n)(*args)   # a builtin over concrete values is evaluated
+            if n not in env["__globals__"]:
+                raise Unsupported("call " + n)
         f = self.ev(e.func, env)
+        kwargs = {k.arg: self.ev(k.value, env) for k in e.keywords}
+        if (getattr(f, "__module__", "") or "").startswith("geneticengine") and not _has_sym(args) and not _has_sym(list(kwargs.values())):
+            return f(*args, **kwargs)   # repository code over concrete arguments runs as it is (concolic step)
         if getattr(f, "_py2smt_native", False) or getattr(getattr(f, "__func__", None), "_py2smt_native", False):
             return f(*args)
         if inspect.ismethod(f) and f.__func__.__module__.startswith("geneticengine"):
@@ -197,6 +237,13 @@ class Interp:
         if inspect.isbuiltin(f) and isinstance(getattr(f, "__self__", None), (list, dict, tuple)):
             return f(*args)
         raise Unsupported("call " + ast.dump(e.func)[:60])
+
+
+def _has_sym(v, depth=0):
+    if is_sym(v): return True
+    if depth < 3 and isinstance(v, (list, tuple, set)): return any(_has_sym(x, depth + 1) for x in v)
+    if depth < 3 and isinstance(v, dict): return any(_has_sym(x, depth + 1) for x in v.values())
+    return False
 
 
 class SymLen:
